@@ -643,3 +643,78 @@ Section Transport.
   Definition transport_header (h : smap) : smap := map (fun kv => (fst kv, trim (snd kv))) h.
   Definition header_get (k : string) (h : smap) : option string := olookup (canon k) h.
 End Transport.
+
+(* ------------------------------------------------------------------ lib/mapping/marshaler.go: Marshal
+   struct -> parts: map[tag]map[key]value.  A field without any tag goes to part "" under its name, unvalidated.
+   validate (77-106): a non-optional pointer must be non-nil, a non-optional slice/map non-empty; an optional zero
+   value is not checked further; options= against fmt.Sprint of the value; range= against the number.
+   fmt.Sprint is modelled for ints, bools and strings (other kinds with options=/string: outside the model). *)
+Definition sprint (v : val) : option string :=
+  match v with
+  | VInt z => Some (render_z z)
+  | VBool b => Some (if b then "true" else "false")%string
+  | VStr s => Some s
+  | _ => None
+  end.
+
+Fixpoint is_zero (v : val) : bool :=
+  match v with
+  | VBool b => negb b
+  | VInt z => z =? 0
+  | VStr s => String.eqb s ""
+  | VFloat r _ => String.eqb r "0"
+  | VNilPtr | VNilSlice | VNilMap => true
+  | VStruct l => forallb (fun x => is_zero x) l
+  | _ => false
+  end.
+
+Definition nonempty_required (t : ty) (v : val) : bool :=
+  match t, v with
+  | Ptr _, VNilPtr => false
+  | Slice _, (VNilSlice | VSlice []) => false
+  | Map _, (VNilMap | VMap []) => false
+  | _, _ => true
+  end.
+
+(* one member: (part name or None for an untagged field, declaration) and its value *)
+Definition marshal_field (tag : option string) (f : field) (v : val) : result (string * string * val) :=
+  match tag with
+  | None => Ok (EmptyString, f_key f, v)
+  | Some tg =>
+      let o := f_opts f in
+      let has_opts := negb (opts_nil o) in
+      if negb (has_opts && o_optional o) && negb (nonempty_required (f_ty f) v) then Err E_required else
+      if negb has_opts then Ok (tg, f_key f, v) else
+      let checked :=
+        if o_optional o && is_zero v then Ok tt else
+        match o_options o with
+        | [] => Ok tt
+        | l => match sprint v with
+               | Some s => if existsb (String.eqb s) l then Ok tt else Err E_options
+               | None => Err E_outside end
+        end in
+      bind checked (fun _ =>
+      let ranged :=
+        if o_optional o && is_zero v then Ok tt else
+        match o_range o with
+        | None => Ok tt
+        | Some r => match v with VInt z => if in_range r z then Ok tt else Err E_range | VFloat _ _ => Err E_outside | _ => Err E_range end
+        end in
+      bind ranged (fun _ =>
+      if o_string o then match sprint v with Some s => Ok (tg, f_key f, VStr s) | None => Err E_outside end
+      else Ok (tg, f_key f, v)))
+  end.
+
+Fixpoint marshal (fs : list (option string * field)) (vs : list val) : result (list (string * string * val)) :=
+  match fs, vs with
+  | [], [] => Ok []
+  | (tg, f) :: r, v :: vr => bind (marshal_field tg f v) (fun e => bind (marshal r vr) (fun es => Ok (e :: es)))
+  | _, _ => Err E_mismatch
+  end.
+
+(* GetFormValues + a form-tagged string member: an empty value never reaches the unmarshaller, so the member is
+   absent: it takes its default, stays "" when optional, and is an error when required *)
+Definition form_string_back (optional : bool) (dflt : option string) (sent : string) : option string :=
+  if String.eqb sent "" then
+    match dflt with Some d => Some d | None => if optional then Some EmptyString else None end
+  else Some sent.
